@@ -40,3 +40,21 @@ package smartclip
 // zero-ring polygon, clipRings indexing r[0] of an empty ring). clipRings' own join loop is not under
 // contract: the callers are checked against an empty contract of it.
 //@ func clipRings(box, rings)
+
+// ---------------------------------------------------------------- endpoint ordering around the box
+// Endpoints are ordered by side (1 left, 2 bottom, 3 right, 4 top: counter-clockwise from the top-left
+// corner); on one side by the coordinate that changes along that side, in travel direction (down the
+// left side, rightwards along the bottom, up the right side, leftwards along the top); endpoints at the
+// same position by the SAME coordinate of the vertex their line has before them. One rule for all four
+// sides: a side that compares the other coordinate, or in the other direction, fails the postcondition.
+//@ spec along(p orb.Point, s uint8) float64 = ite(s == 1 || s == 3, p[1], p[0])
+//@ spec travel(s uint8, a float64, b float64) bool = ite(s == 1 || s == 4, a >= b, a < b)
+//@ spec beforeOf(ep *endpoint, mls []orb.LineString) orb.Point = ite(ep.Start, mls[ep.Index][0], mls[ep.Index][len(mls[ep.Index])-2])
+//@ spec epOK(ep *endpoint, mls []orb.LineString) bool = ep != nil && ep.Side >= 1 && ep.Side <= 4 && 0 <= ep.Index && ep.Index < len(mls) && len(mls[ep.Index]) >= 2
+//@ func (*sortableEndpoints).Less(e, i, j)
+//@   floats ieee
+//@   requires e != nil && 0 <= i && i < len(e.eps) && 0 <= j && j < len(e.eps) && epOK(e.eps[i], e.mls) && epOK(e.eps[j], e.mls)
+//@   modifies nothing
+//@   ensures e.eps[i].Side != e.eps[j].Side ==> result == (e.eps[i].Side < e.eps[j].Side)
+//@   ensures e.eps[i].Side == e.eps[j].Side && along(e.eps[i].Point, e.eps[i].Side) != along(e.eps[j].Point, e.eps[i].Side) ==> result == travel(e.eps[i].Side, along(e.eps[i].Point, e.eps[i].Side), along(e.eps[j].Point, e.eps[i].Side))
+//@   ensures e.eps[i].Side == e.eps[j].Side && along(e.eps[i].Point, e.eps[i].Side) == along(e.eps[j].Point, e.eps[i].Side) ==> result == travel(e.eps[i].Side, along(beforeOf(e.eps[i], e.mls), e.eps[i].Side), along(beforeOf(e.eps[j], e.mls), e.eps[i].Side))
